@@ -40,6 +40,7 @@ type globalInfo struct {
 	constant bool              // never written outside init
 	cells    map[int64]string  // known initial cell values (SMT literal) by cell offset
 	nonNil   bool              // interface/pointer global initialised non-nil
+	fn       *ssa.Function     // function-valued global initialised with this function
 	kinds    map[int64]*Layout // layout per known cell
 }
 
@@ -557,6 +558,9 @@ func (e *Engine) scanInit(init *ssa.Function) {
 					continue
 				}
 				switch v := st.Val.(type) {
+				case *ssa.Function:
+					gi.fn = v
+					gi.nonNil = true
 				case *ssa.MakeInterface:
 					gi.nonNil = true
 				case *ssa.Call:
